@@ -114,7 +114,7 @@ Section fresh.
     intros Hf a0 srcs. induction srcs as [|s sr IH]; intros i olds st rs st' H; cbn [each_assign] in H.
     - injection H as <- <-. split; [lia|]. intros a Ha. right. left. exact Ha.
     - destruct olds as [|o orr].
-      + destruct (touches a0 s); [discriminate|]. apply IH in H as [Hm Hr]. split; [exact Hm|].
+      + destruct (touches a0 s); [exfalso; eapply store_into_nil_not_done; exact H|]. apply IH in H as [Hm Hr]. split; [exact Hm|].
         intros a Ha. destruct (Hr a Ha) as [X|[X|[X|X]]]; auto.
         left. cbn [flat_map]. apply in_or_app. right. exact X.
       + destruct (ea a0 s o st) as [[v st1]| | | |] eqn:E1; cbn [tag obind] in H; try discriminate.
